@@ -45,6 +45,12 @@ def gen(rng, tier):
         big = n >= 2 and L >= 2
         for q in ("writers", "stats", "coords", "copies", "dist", "sw"):
             yield Case("purity", [alpha, rs, q], big, "purity-" + q)
+        # the same queries on an alignment whose alphabet was never detected (UNKNOWN = 3: built through the library
+        # without AutoAlphabet) or is BOTH (2): the alphabet is part of what must stay unchanged
+        if rng.random() < 0.5:
+            a2 = rng.choice([3, 3, 2])
+            for q in ("writers", "stats", "coords", "copies"):
+                yield Case("purity", [a2, rs, q], big, "purity-%s-alphabet%d" % (q, a2))
         for c in ("clone", "clonebag", "subalign", "selectsites", "transpose", "bootstrap", "unalign", "sample", "randsub"):
             yield Case("alias", [alpha, rs, c], big, "alias-" + c)
         # the same constructors on windows / site lists of every shape (a run of consecutive sites, scattered,
